@@ -669,7 +669,7 @@ def failure_key(doc, why, failing_classes, label=None):
 def correspondence(ctx):
     rng = random.Random(ctx.seed)
     quick = ctx.tier == 'quick'
-    n_low, n_build = (380, 170) if quick else (7000, 3000)
+    n_low, n_build = (380, 170) if quick else (7000, 2500)
     sysd = systematic()
     low = [gen_low(rng, 50 if i % 10 == 0 else 8) for i in range(n_low)]
     bld = [gen_builder(rng) for _ in range(n_build)]
